@@ -82,6 +82,9 @@ MUTANTS = [
     ("c10_accumulate_in_place", ["C10"], "npstructures/raggedarray/__init__.py",
      "        cm = operator.accumulate(self.ravel(), dtype=dtype)\n",
      "        cm = operator.accumulate(self.ravel(), dtype=dtype, out=self.ravel().copy() if dtype is not None else self.ravel())\n        starts = cm[self._shape.starts] * 0 + starts\n"),
+    ("c10_flatten_marks_contiguous_before_gathering", ["C10"], "npstructures/raggedarray/base.py",
+     "        idx, shape = self._shape.get_flat_indices()\n        self.__data = self.__data[idx]\n        self._shape = shape\n        self.is_contigous = True",
+     "        self.is_contigous = True\n        idx, shape = self._shape.get_flat_indices()\n        self.__data = self.__data[idx]\n        self._shape = shape"),
     ("c19_int32_index_rows_sorted_gather", ["C19"], "npstructures/raggedshape.py",
      "            return np.ascontiguousarray(np.atleast_1d(self._codes.view(np.uint64)[idx])).view(self._dtype)",
      "            return np.ascontiguousarray(np.atleast_1d(self._codes.view(np.uint64)[idx if isinstance(idx, slice) or np.ndim(idx) == 0 or np.asarray(idx).dtype == bool else np.abs(idx)])).view(self._dtype)"),
